@@ -740,6 +740,39 @@ class Sim:
         st, v = call(lambda: f != copy)
         if st == "exc" or v is not False:
             self.fail("mapping:ne-true-for-equal", got=v if st == "ok" else exc_name(v))
+        # equality of mappings does not depend on the insertion order: move the first block, the first category of
+        # every block and the first column of every category to the end (pop + set, on a second copy)
+        st, rcopy = call(self.durable_copy, f)
+        if st == "ok":
+            moved = 0
+            for bn in list(self.model):
+                blk = rcopy[bn]
+                for cn in list(self.model[bn]):
+                    cat = blk[cn]
+                    cols = list(self.model[bn][cn])
+                    if len(cols) > 1:
+                        col = cat[cols[0]]
+                        del cat[cols[0]]
+                        cat[cols[0]] = col
+                        moved += 1
+                cats = list(self.model[bn])
+                if len(cats) > 1:
+                    cat = blk[cats[0]]
+                    del blk[cats[0]]
+                    blk[cats[0]] = cat
+                    moved += 1
+            blocks = list(self.model)
+            if len(blocks) > 1:
+                blk = rcopy[blocks[0]]
+                del rcopy[blocks[0]]
+                rcopy[blocks[0]] = blk
+                moved += 1
+            if moved:
+                for what, fn in (("f == reordered", lambda: f == rcopy), ("reordered == f", lambda: rcopy == f)):
+                    st, v = call(fn)
+                    if st == "exc" or v is not True:
+                        self.fail("mapping:eq-false-for-reordered", what=what, got=v if st == "ok" else exc_name(v))
+                self.res.stats["probe:eq-reordered"] += 1
         # a store that differs in one place must compare unequal
         if self.model:
             b = next(iter(self.model))
